@@ -19,17 +19,15 @@
    * Buffers / peer view, configurations the real code ACCEPTS (config_ok = what VerifyConfig and the
      type of Config.ShareMemoryBufferCap enforce: capacity < 2^32, at least one pair, every size <=
      capacity, percentages summing to 100 IN INT): C03_buffers_config and C03_peer_view_config hold up
-     to the last byte below 4 GiB, with two extra hypotheses the code does not enforce:
-       (H1) size + 20 < 2^32 for every pair.  NOT excluded by VerifyConfig and REFUTED on accepted input:
-            ShareMemoryBufferCap = 2^32-1, BufferSliceSizes = [{2^32-20, 100}] passes VerifyConfig and
-            createBufferManager divides by zero (C03_buffers_refuted; reproduced on the real code by the
-            harness on a lazily backed 4 GiB mapping; reported as C03:slice-size-plus-header-wraps).
+     to the last byte below 4 GiB, with ONE extra hypothesis the code does not enforce:
        (H2) 36*#pairs + 8 <= capacity.  VerifyConfig does not bound the number of pairs; together with
             C03_buffers_partial the only accepted configurations left uncovered have a capacity within
             36 bytes of 4 GiB AND more than 119 million pairs.
-     The second witness (wit_caseB: a percentage of 2^32-1) is rejected by VerifyConfig — its percent
+     (The former hypothesis H1, size + 20 < 2^32, is gone: since /repo db4e530 createBufferManager rejects
+     a size whose stride wraps instead of dividing by zero — C03_regression_slice_size_wrap.)
+     The refuting witness (wit_caseB: a percentage of 2^32-1) is rejected by VerifyConfig — its percent
      sum in int is 4294967318, not 100 — and so is every configuration with a wrapping percentage
-     (C03_refutations_vs_VerifyConfig). *)
+     (C03_refutation_vs_VerifyConfig). *)
 From Coq Require Import List ZArith Lia Bool.
 From Shm Require Import Gen.Consts Model.Layout Proofs.LayoutProofs.
 Import ListNotations.
@@ -88,20 +86,14 @@ Theorem C03_buffers_partial : forall pairs memLen m0,
 Proof. exact buffers_partial. Qed.
 Print Assumptions C03_buffers_partial.
 
-(* without G1, first witness: a 4 GiB - 1 mapping and one slice size of 2^32 - 20: size + 20 wraps to
-   0 and createBufferManager divides by zero *)
+(* without G1 and with arbitrary uint32 percentages: a 4 GiB - 1 mapping, three one-slot classes with
+   sizes far below 2^32 and a percentage of 2^32 - 1 (LayoutProofs.wit_caseB); the third region is
+   placed at offset 0, over the manager header and the first class *)
 Theorem C03_buffers_refuted : ~ C03_buffers_full.
 Proof. exact buffers_refuted. Qed.
 Print Assumptions C03_buffers_refuted.
 
-(* without G1, second witness, all sizes far below 2^32 - 20: three one-slot classes and a percentage
-   of 2^32 - 1 (LayoutProofs.wit_caseB); the third region is placed at offset 0, over the manager
-   header and the first class *)
-Theorem C03_buffers_refuted_small_sizes : ~ C03_buffers_full.
-Proof. exact buffers_refuted_small_sizes. Qed.
-Print Assumptions C03_buffers_refuted_small_sizes.
-
-(* configurations the code accepts (VerifyConfig + uint32 capacity) plus H1, H2: valid up to 4 GiB - 1 *)
+(* configurations the code accepts (VerifyConfig + uint32 capacity) plus H2: valid up to 4 GiB - 1 *)
 Theorem C03_buffers_config : forall pairs memLen m0,
   config_ok memLen pairs ->
   match create_bm pairs memLen m0 with
@@ -115,15 +107,20 @@ Theorem C03_buffers_config : forall pairs memLen m0,
 Proof. exact buffers_config. Qed.
 Print Assumptions C03_buffers_config.
 
-(* which refuting witness the real code lets through: VerifyConfig's rules accept the division-by-zero
-   witness (only H1 fails) and reject the wrapping-percentage witness (sum in int <> 100) *)
-Theorem C03_refutations_vs_VerifyConfig :
-  (1048576 <= wit_mem < 4294967296 /\ wit_div0 <> [] /\
-   Forall (fun p => 0 <= fst p <= wit_mem /\ 0 <= snd p) wit_div0 /\ sum_pct wit_div0 = 100 /\
-   c_bufferListHeaderSize * Z.of_nat (length wit_div0) + c_bufferManagerHeaderSize <= wit_mem) /\
-  sum_pct wit_caseB <> 100.
-Proof. exact (conj wit_div0_accepted_by_VerifyConfig wit_caseB_rejected_by_VerifyConfig). Qed.
-Print Assumptions C03_refutations_vs_VerifyConfig.
+(* the refuting witness is not a configuration the real code accepts: VerifyConfig sums the percentages
+   in int and demands 100 *)
+Theorem C03_refutation_vs_VerifyConfig : sum_pct wit_caseB <> 100.
+Proof. exact wit_caseB_rejected_by_VerifyConfig. Qed.
+Print Assumptions C03_refutation_vs_VerifyConfig.
+
+(* regression (documents the behaviour repaired by db4e530, fixed known finding
+   "C03:slice-size-plus-header-wraps"): capacity 2^32 - 1 with the single pair (2^32 - 20, 100) is accepted
+   by VerifyConfig (it is config_ok); the uint32 stride Size + 20 is 0 — the divisor of the former
+   integer divide by zero — and createBufferManager now returns an error *)
+Example C03_regression_slice_size_wrap :
+  config_ok wit_mem wit_div0 /\
+  w32 (4294967276 + c_bufferHeaderSize) = 0 /\ create_bm wit_div0 wit_mem zero_mem = Err 6.
+Proof. exact (conj wit_div0_config_ok wit_div0_regression). Qed.
 
 (* ---------------------------------------------------------------------------------------------- *)
 (* peer view *)
